@@ -62,10 +62,10 @@ PROPS = {
                 gen=lambda seed, tier: gen.gen_def_cases(seed, 20000 if tier == 'thorough' else 2500), flavours=['c'],
                 rule='random (mostly defective) terminal/rule lists through the callbacks, every defect class alone and in pairs, strict in {0,1}; return code vs model, symbol flags and rules vs model',
                 assumptions=COMMON_ASSUME),
-    'C11': dict(level='proof', theorem_modules=['C11', 'C11Yacc', 'C10', 'Generated'], min_theorems=8, tags=['C11'], crash_counts=True,
+    'C11': dict(level='proof', theorem_modules=['C11', 'C11Yacc', 'C10', 'Generated'], min_theorems=8, tags=['C11', 'C01', 'C02', 'C03', 'C04', 'C05'], crash_counts=True,
                 gen=lambda seed, tier: gen.gen_descr_cases(seed, 20000 if tier == 'thorough' else 2000), flavours=['c'],
-                rule='descriptions printed from a random AST with random layout (whitespace, newlines, comments, optional semicolons, TERM sections anywhere, harmless redeclarations, explicit and implicit codes, char constants, all translation forms), 30% byte-mutated, 10% arbitrary bytes; return code, error line, terminals-with-codes and rules vs the Lean lexer/parser model; parses through the description-defined object and its callback-defined twin both judged against the model',
-                assumptions=COMMON_ASSUME + ['a name declared both with and without a code is outside the property (the generator keeps redeclarations consistent)']),
+                rule='descriptions printed from a random AST with random layout (whitespace, newlines, comments, optional semicolons, TERM sections anywhere, redeclarations with and without the code, explicit and implicit codes, char constants, all translation forms), 30% byte-mutated, 10% arbitrary bytes; return code, error line, terminals-with-codes and rules vs the Lean lexer/parser model; parses through the description-defined object and its callback-defined twin both judged against the model',
+                assumptions=COMMON_ASSUME + ['the acceptance of a token sequence by the bison-generated parser is the language of the productions of sgramm.y (bison reports no conflict; bison is trusted)']),
     'C16': dict(level='proof', theorem_modules=['C01', 'C10', 'C15', 'C19'], min_theorems=8, crash_counts=True, compare_flavours=True,
                 tags=['C01', 'C02', 'C05', 'C06', 'C07', 'C09', 'C10', 'C11', 'C13', 'C14', 'C15'],
                 gen=lambda seed, tier: (gen.gen_parse_cases(seed, 4000 if tier == 'thorough' else 350, 'C01') +
@@ -135,9 +135,17 @@ def fault_scenarios(seed, tier):
         (fixed, None, [97, 43, 43, 97, 97], dict(rec=1, match=2)),          # with error recovery
         (amb, None, [97, 97, 97, 97], dict(one=0, cost=1, rec=0)),          # all parses + cost pruning
         (amb, None, [97, 97, 97], dict(la=2, one=0, rec=0)),
+        (amb, None, [97, 97, 97], dict(one=1, cost=1, rec=0)),              # one parse + cost: all parses built internally
         (None, texts[0], [300, 43, 256], dict(rec=1)),
         (None, texts[1], [97, 97, 97], dict(one=0, rec=0)),
     ]
+    # hundreds of terminals: the grammar-lifetime hash tables and vectors grow while the
+    # definition is read (a failure in the middle of a growth step must leave them usable)
+    nbig = 400
+    bt = [('t%d' % j, 1000 + 3 * j) for j in range(nbig)]
+    big = gen.Grammar(bt, [('S', 'l', 1, ['S', 'I'], [0, 1]), ('S', None, 0, ['I'], [0])] +
+                      [('I', 'i%d' % j, 1, [bt[(37 * j) % nbig][0], bt[(91 * j + 5) % nbig][0]], [0, 1]) for j in range(12)], True)
+    plans.append((big, None, [bt[0][1], bt[5][1], bt[37][1], bt[96][1]], dict(rec=0)))
     nrand = 10 if tier == 'thorough' else 2
     for _ in range(nrand):
         g = gen.gen_grammar(r, err_prob=0.4)
@@ -204,6 +212,12 @@ def run_c17(pid, P, tier, seed):
                     vo = ops[:i - 1] + ['failat 0 %d' % k, ops[i - 1]]
                     if kind != 'create' or True:
                         vo += ['err 0'] if kind != 'create' else []
+                    if k % 2 == 0 and kind != 'create':
+                        # the same object is defined again and used: it must behave like a fresh one
+                        redo = [x for x in ops if x.split()[0] in ('def', 'descr', 'parse') and x.split()[1] == '0']
+                        vo += redo + ['err 0']
+                        # read every setting back: a failed call must not have changed any
+                        vo += ['set 0 %s %d' % (kk, vv) for kk, vv in (('one', 1), ('cost', 0), ('la', 1), ('rec', 1), ('match', 3), ('debug', 0))]
                     vo += ['free 0', 'set 1 rec 0', 'parse 1 user user 0 %s' % bystander_tok, 'err 1', 'free 1']
                     v += ['op %d %s' % (j + 1, x) for j, x in enumerate(vo)] + ['end']
                     variants.append(v)
